@@ -93,14 +93,21 @@ Definition zleq (a b : list Z) : bool := if list_eq_dec Z.eq_dec a b then true e
 Definition coefs (F : (Q -> Q) -> (Q -> Q) -> (Q -> Q) -> Q -> Q) : list Z :=
   [qz (F K0 K0 K0 0); qz (F K1 K0 K0 0); qz (F K0 K1 K0 0); qz (F K0 K0 K1 0);
    qz (F K0 K0 K0 1); qz (F K1 K0 K0 1); qz (F K0 K1 K0 1); qz (F K0 K0 K1 1)].
-Definition probe (F : Z -> (Q -> Q) -> (Q -> Q) -> (Q -> Q) -> Q -> Q) (arg : Z -> option Q) (size : Z) :=
-  let p1 := coefs (F 1%Z) in
-  (coefs (F 0%Z), p1, forallb (fun k => zleq (coefs (F k)) p1) (tl (zrange size)),
+Definition wcoefs (W : (Q -> Q) -> (Q -> Q) -> (Q -> Q) -> Q) : list Z :=
+  [qz (W K0 K0 K0); qz (W K1 K0 K0); qz (W K0 K1 K0); qz (W K0 K0 K1)].
+(* the whole filter (with the ramp factor r) at the indices 0, 1, size-1; the window at every index *)
+Definition probe (F : Z -> (Q -> Q) -> (Q -> Q) -> (Q -> Q) -> Q -> Q)
+  (W : Z -> (Q -> Q) -> (Q -> Q) -> (Q -> Q) -> Q) (arg : Z -> option Q) (size : Z) :=
+  let w1 := wcoefs (W 1%Z) in
+  ([coefs (F 0%Z); coefs (F 1%Z); coefs (F (size - 1)%Z)], wcoefs (W 0%Z), w1,
+   forallb (fun k => zleq (wcoefs (W k)) w1) (tl (zrange size)),
    map (fun k => optq (arg k)) (zrange size)).
 Definition probe_port (nm : fname) (size : Z) :=
-  probe (fun k s c n r => port_filter s c n (fun _ _ => r) repaired nm size k) (port_window_arg repaired nm size) size.
+  probe (fun k s c n r => port_filter s c n (fun _ _ => r) repaired nm size k)
+        (fun k s c n => port_window s c n repaired nm size k) (port_window_arg repaired nm size) size.
 Definition probe_sk (nm : fname) (size : Z) :=
-  probe (fun k s c n r => sk_filter s c n (fun _ _ => r) nm size k) (sk_window_arg nm size) size.
+  probe (fun k s c n r => sk_filter s c n (fun _ _ => r) nm size k)
+        (fun k s c n => sk_window s c n nm size k) (sk_window_arg nm size) size.
 Definition kern (l : list (Q * Q)) := map (fun ab => (qz (fst ab), qz (snd ab))) l.
 """
 
@@ -528,8 +535,8 @@ def gen_oracle_cases(ctx: Ctx):
     r = ctx.rng
     cases = [dict(c) for c in REGRESSION]
     sizes = list(range(2, 66))
-    # --- radon: every size 2..65 at least once per run (quick: once; thorough: x6)
-    for rep in range(ctx.budget(1, 6)):
+    # --- radon: every size 2..65 at least once per run (quick: once; thorough: x12)
+    for rep in range(ctx.budget(1, 12)):
         for n in sizes:
             A = r.choice([1, 2, 3, 5, 8]) if n > 40 else r.choice([1, 2, 3, 5, 8, 13, n])
             cases.append({"kind": "radon", "n": n, "img_kind": IMG_KINDS[(n + rep) % 5],
@@ -555,7 +562,7 @@ def gen_oracle_cases(ctx: Ctx):
             cases.append({"kind": "filter", "size": size, "filter": name})
     # --- iradon: sizes x filters x angle sets x sinogram kinds; circle=True (default output size),
     #     circle=False (default output size), circle=True with a smaller output size
-    for rep in range(ctx.budget(2, 12)):
+    for rep in range(ctx.budget(2, 24)):
         for N in sizes:
             mode = (N + rep) % 6
             circle = mode != 4
@@ -752,25 +759,44 @@ def check_radon_corr(ctx: Ctx):
 
 
 def _filter_from_probes(pr, ramp):
-    """pr = (coefs at k=0, coefs at k>=1, all k>=1 share them, args) in 2^40 fixed point; the filter value is
-    F(T, r) = A(T) + r B(T) with A, B affine in T = (sin(pi a), cos(pi a), sinc(a)) and r = ramp[k]"""
-    c0, c1, same, args = pr
+    """pr = (filter probes at k = 0, 1, size-1; window coefficients at k = 0 and k >= 1; all k >= 1 share
+    them; window arguments), 2^40 fixed point.  The filter is F(T, r) = A(T) + r B(T), affine in
+    T = (sin(pi a), cos(pi a), sinc(a)), r = ramp[k]; B must be the window (or 0: the ramp is unused)."""
+    fpr, w0, w1, same, args = pr
     if not same or len(args) != len(ramp):
         return None
+    fl = lambda v: [float(x) / Q40 for x in v]   # noqa: E731
+    const = None
+    for kk, f in zip((0, 1, len(args) - 1), map(fl, fpr)):
+        A_ = f[:4]
+        B_ = [f[4 + i] - f[i] for i in range(4)]
+        w = fl(w0 if kk == 0 else w1)
+        if any(abs(A_[i] - A_[0]) > 1e-9 for i in range(4)):
+            return None                               # the ramp-free part must not depend on T
+        if all(abs(x) < 1e-9 for x in B_):
+            uses = False
+        elif all(abs(B_[i] - w[i]) < 1e-9 for i in range(4)):
+            uses = True
+        else:
+            return None                               # the ramp factor is not the window
+        if const is None:
+            const = (A_[0], uses)
+        elif const != (A_[0], uses):
+            return None
+    A0, uses = const
     out = np.zeros(len(args))
     for k, arg in enumerate(args):
-        f = [float(x) / Q40 for x in (c0 if k == 0 else c1)]
+        w = fl(w0 if k == 0 else w1)
         if int(arg) == NOARG:
-            if any(abs(f[i] - f[0]) + abs(f[4 + i] - f[4]) > 1e-9 for i in (1, 2, 3)):
+            if any(abs(w[i] - w[0]) > 1e-9 for i in (1, 2, 3)):
                 return None     # a transcendental is used but the model names no argument
             T = (0.0, 0.0, 0.0)
         else:
             a = float(int(arg)) / Q40
             sn = math.sin(math.pi * a)
             T = (sn, math.cos(math.pi * a), 1.0 if a == 0 else sn / (math.pi * a))
-        at = lambda o: f[o] + sum((f[o + 1 + i] - f[o]) * T[i] for i in range(3))   # noqa: E731
-        A_, F1 = at(0), at(4)
-        out[k] = A_ + ramp[k] * (F1 - A_)
+        W = w[0] + sum((w[1 + i] - w[0]) * T[i] for i in range(3))
+        out[k] = A0 + (ramp[k] * W if uses else 0.0)
     return out
 
 
